@@ -211,6 +211,8 @@ class Model:
         """advance by one history step; returns the expectation attached to that step"""
         op = st["op"]
         ann: Dict[str, Any] = {}
+        if getattr(self, "crashed_backport", False) and op != "backport":
+            raise IllFormed("after a backport interrupted in its first phase the only recovery is to backport again")
         if op == "shape":
             self.shapes[st["name"]] = {"ops": [st], "n_ops": st["n_ops"], "patch_names": set()}
         elif op in ("shape_chop", "shape_patch"):
@@ -279,7 +281,28 @@ class Model:
             # half-built volatile state; the history must clear next
             self.assembled = True
             self.stale_reasons.add("crash")
+        elif op == "crash_in_backport":
+            # backport() is interrupted at its k-th internal step: steps 1..2n write the moved
+            # positions into the operations' faces (two per block), later steps are the
+            # re-assembly.  Recovery: backport again (phase 1) or clear + assemble (phase 2).
+            if not self.movable:
+                raise IllFormed("crash_in_backport")
+            n = len(self.assembled_ops)
+            if not (1 <= st["at"] <= 2 * n + 8):
+                raise IllFormed("crash point outside backport")
+            if st["at"] <= 2 * n:
+                ann["phase"] = 1  # still assembled, moves still pending, some operations already updated
+                self.crashed_backport = True
+            else:
+                ann["phase"] = 2
+                for (nn, cc), to in self.pending.items():
+                    self.pos[nn][cc] = list(to)
+                self.pending = {}
+                self.assembled = True
+                self.stale_reasons.add("crash")
         elif op == "clear":
+            if getattr(self, "crashed_backport", False):
+                raise IllFormed("clear after a backport interrupted while updating operations would tear the model")
             self._clear()
         elif op == "move_corner":
             if not self.movable or st["target"] not in self.assembled_ops or st["target"] not in self.recipes:
@@ -293,6 +316,7 @@ class Model:
         elif op == "backport":
             if not self.movable:
                 raise IllFormed("backport")
+            self.crashed_backport = False
             had_block = list(self.assembled_ops)
             for (nn, cc), to in self.pending.items():
                 self.pos[nn][cc] = list(to)
@@ -431,6 +455,8 @@ def gen_history(seed: int, faults: str) -> Dict[str, Any]:
         if m.movable:
             cand.append(("move", 3))
             cand.append(("backport", 3))
+            if p_fault:
+                cand.append(("crash_in_backport", 6 * p_fault))
         cand.append(("clear", 2))
         if m.used_patch_names():
             cand.append(("modify_patch", 2))
@@ -464,6 +490,14 @@ def gen_history(seed: int, faults: str) -> Dict[str, Any]:
             do({"op": "move_corner", "target": n, "corner": c, "to": to})
         elif kind == "backport":
             do({"op": "backport"})
+        elif kind == "crash_in_backport":
+            n_asm = len(m.assembled_ops)
+            at = rs.randint(1, 2 * n_asm + 8)
+            do({"op": "crash_in_backport", "at": at})
+            if at <= 2 * n_asm:
+                do({"op": "backport"})
+            else:
+                do({"op": "clear"})
         elif kind == "clear":
             do({"op": "clear"})
         elif kind == "modify_patch":
@@ -584,7 +618,9 @@ class StepProbe:
         from classy_blocks.lists.patch_list import PatchList
         from classy_blocks.lists.vertex_list import VertexList
 
-        for cls, name in ((VertexList, "add"), (EdgeList, "add_from_operation"), (BlockList, "add"), (PatchList, "add"), (FaceList, "add")):
+        from classy_blocks.construct.flat.face import Face
+
+        for cls, name in ((Face, "update"), (VertexList, "add"), (EdgeList, "add_from_operation"), (BlockList, "add"), (PatchList, "add"), (FaceList, "add")):
             orig = getattr(cls, name, None)
             if orig is None:
                 continue
@@ -645,6 +681,19 @@ def run_history(hist: Dict[str, Any]) -> Dict[str, Any]:
                         crashed = True
                         world.count("fault:crash-in-assemble")
                         world.event("crash", st["at"])
+                    prev = op
+                    continue
+                if op == "crash_in_backport":
+                    probe.count = 0
+                    probe.crash_at = st["at"]
+                    try:
+                        it.mesh.backport()
+                        probe.crash_at = None
+                        bad("crash-point-missed", f"backport has fewer than {st['at']} internal steps (harness expectation)", i=i)
+                    except seams.SimCrash:
+                        stats["crashes_fired"] += 1
+                        world.count("fault:crash-in-backport")
+                        world.event("crash-backport", st["at"], ann["phase"])
                     prev = op
                     continue
                 if op == "move_corner":
